@@ -25,8 +25,21 @@ def splitGen (s : String) : Option (Pfx × String) :=
   | [p, t] => if t.length = 7 then (pfxNames.lookup p).map (·, t) else none
   | _ => none
 
+/-- preset ids of the scripts: `P<k>`, `P<k>_di`, `P<k>_1` — three different ids, numbered `4k`, `4k + 1`, `4k + 2` -/
 def presetNum (s : String) : Option Nat :=
-  if s.startsWith "P" then (s.drop 1).toNat? else none
+  if s.startsWith "P" then
+    match (s.drop 1).toString.splitOn "_" with
+    | [k] => k.toNat?.map (· * 4)
+    | [k, "di"] => k.toNat?.map (· * 4 + 1)
+    | [k, "1"] => k.toNat?.map (· * 4 + 2)
+    | _ => none
+  else none
+
+def showPreset (n : Nat) : String :=
+  match n % 4 with
+  | 0 => s!"P{n / 4}"
+  | 1 => s!"P{n / 4}_di"
+  | _ => s!"P{n / 4}_1"
 
 /-- offset of the tokens the model uses for calls whose result is not (yet) known -/
 def unknownBase : Nat := 1000000
@@ -43,7 +56,7 @@ def Ctx.toId (c : Ctx) (s : String) : Option Id :=
     | none => none
 
 def showId (c : Ctx) : Id → String
-  | .preset n => s!"P{n}"
+  | .preset n => showPreset n
   | .gen p t =>
     let pn := (pfxNames.find? (·.2 = p)).map (·.1) |>.getD "?"
     if t ≥ unknownBase then s!"{pn}_<call{t - unknownBase}>" else s!"{pn}_{c.toks.getD t "?"}"
@@ -439,6 +452,22 @@ def checkBuild (params lines : List String) : CaseResult := Id.run do
   if started != 2 then return { bad := ["script does not start with newdb, newpb"] }
   let _ := layoutOn
   let c : Ctx := { toks, presets }
+  -- ids are unique across the WHOLE definitions — diagram, plane, shapes and edges included — whatever they look like
+  -- (judged on the raw strings, before anything is interpreted)
+  let mut declared : List String := []
+  for ln in lines do
+    match words ln with
+    | ["d", "defs", id] => declared := id :: declared
+    | "d" :: "proc" :: _ :: id :: _ => declared := id :: declared
+    | "d" :: "node" :: _ :: _ :: id :: _ => declared := id :: declared
+    | "d" :: "flow" :: _ :: id :: _ => declared := id :: declared
+    | "d" :: "diagram" :: id :: plane :: _ => declared := plane :: id :: declared
+    | "d" :: "shape" :: id :: _ => declared := id :: declared
+    | "d" :: "edge" :: id :: _ => declared := id :: declared
+    | _ => pure ()
+  let rawDups := (dupsOf (declared.filter (fun s => s != "-" && s != ""))).filter (fun s => (splitGen s).isNone)
+  if !rawDups.isEmpty then
+    r := { r with specs := s!"duplicate_id_in_document: {rawDups} declared twice (model and diagram elements of one definitions)" :: r.specs }
   -- pass 2: what the implementation produced
   let mut st : ParseSt := {}
   let mut panicked := false
